@@ -49,7 +49,8 @@ GROUPS = {
         # the hand-written model Model/CellSpace.lean), `raise` is `Except`, the state attributes come back after the value
         "namespace": "Mesa.Cells.GenOcc",
         "path": "MesaModel/Gen/FnCellOcc.lean",
-        "recs": [Rec("CellRec", {"_agents": ("L", "Nat"), "capacity": ("O", "Int"), "empty": "Bool"})],
+        "recs": [Rec("CellRec", {"_agents": ("L", "Nat"), "capacity": ("O", "Int"), "empty": "Bool"}),
+                 Rec("MoverRec", {"unique_id": "Nat"})],
         "fns": [
             Fn("C06", "mesa/discrete_space/cell.py", "Cell.agents", "agents", {}, self_rec="CellRec"),
             Fn("C06", "mesa/discrete_space/cell.py", "Cell.is_empty", "is_empty", {}, self_rec="CellRec", props={"agents": "agents"}),
@@ -58,6 +59,9 @@ GROUPS = {
                state={"self._agents": ("L", "Nat"), "self.empty": "Bool"}),
             Fn("C06", "mesa/discrete_space/cell.py", "Cell.remove_agent", "remove_agent", {"agent": "Nat"}, self_rec="CellRec",
                state={"self._agents": ("L", "Nat"), "self.empty": "Bool"}, props={"is_empty": "is_empty"}, list_remove_raises=True),
+            # cell_agent.py: `self.cell = cell` is the effect "the `cell` setter runs with this cell" (cells named by their coordinate)
+            Fn("C06", "mesa/discrete_space/cell_agent.py", "BasicMovement.move_to", "move_to", {"cell": LI}, self_rec="MoverRec",
+               effects={"self.cell=": ("T", LI)}),
         ],
     },
     "Legacy": {
@@ -121,12 +125,13 @@ GROUPS = {
 REGISTRY = {
     "C06": {
         "groups": ["CellOcc"],
-        "functions": ["Cell.agents", "Cell.is_empty", "Cell.is_full", "Cell.add_agent", "Cell.remove_agent"],
+        "functions": ["Cell.agents", "Cell.is_empty", "Cell.is_full", "Cell.add_agent", "Cell.remove_agent",
+                      "BasicMovement.move_to"],
         "lean_modules": ["MesaModel.Proofs.XlateCellOcc"],
         "theorems": ["Mesa.Cells." + t for t in (
             "C06_gen_agents_eq_model", "C06_gen_is_empty_eq_model", "C06_gen_is_full_eq_model", "C06_gen_add_agent_eq_model",
             "C06_gen_remove_agent_eq_model", "C06_model_mutators_are_generated", "C06_capacity_generated",
-            "C06_empty_flag_generated", "C18_cells_rejected_mutator_generated")],
+            "C06_empty_flag_generated", "C18_cells_rejected_mutator_generated", "C06_gen_move_to_eq_model")],
     },
     "C05": {
         "groups": ["Steps"],
